@@ -95,6 +95,10 @@ def main(tier, seed):
     # forced rebuild (is_force_update=True: what the solver does after update_fun_def) with a rejected candidate
     for maxcor, L in ((2, 2), (2, 3), (3, 3)):
         jobs.append((S, dict(n=2, maxcor=maxcor, len=L, force=1)))
+    # non-default curvature threshold (the solver's eps_SY option): accept/reject and the stored-pair invariant use it
+    for n, maxcor, L in ((1, 1, 1), (1, 1, 2), (2, 2, 2), (2, 2, 3)):
+        jobs.append((S, dict(n=n, maxcor=maxcor, len=L, eps="1/4")))
+    jobs.append((S, dict(n=2, maxcor=2, len=2, eps="0")))
     jobs += [(C, dict(n=1, m=1)), (C, dict(n=2, m=1)), (C, dict(n=3, m=1)),
              (C, dict(n=2, m=2, nsym=1, ylin=1, seed=seed)), (C, dict(n=2, m=3, nsym=1, ylin=1, seed=seed)),
              (C, dict(n=2, m=2, nsym=1, trust_pd=1, seed=seed)), (C, dict(n=2, m=3, nsym=1, trust_pd=1, seed=seed))]
@@ -116,7 +120,7 @@ def main(tier, seed):
     chk.sample(dict(compact=dict(obligations=["compact_equals_dense_bfgs", "symmetric", "positive_definite", "secant_equation", "theta_is_yy_over_sy"],
                                  note="B_impl(e_j) = theta e_j - W bmv(invMfactors, W' e_j) through the real code; identities hold as equal normal forms")))
     chk.functions = W.functions_encoded(H.FUNCS)
-    chk.bounds = dict(step="n<=2 (thorough 3), maxcor<=3 (thorough 4), every deque length 1..maxcor+1, one update (inductive step)",
+    chk.bounds = dict(step="n<=2 (thorough 3), maxcor<=3 (thorough 4), every deque length 1..maxcor+1, one update (inductive step); curvature threshold eps in {2.2e-16 (default), 1/4, 0}",
                       compact="fully symbolic pair for (n,m) in {(1,1),(2,1),(3,1)}; m=2,3 (thorough 4): older pairs concrete instance, newest pair symbolic; positive definiteness for m>=2 on the family y = A s (A concrete SPD)")
     chk.outside = ["n > 3, maxcor > 4", "fully symbolic memory with m >= 2 and n >= 2 (polynomial blow-up)", "positive definiteness for arbitrary newest y when m >= 2 (nlsat undecided at 300 s): there the identity obligations take PD of the factorised matrices as an assumption",
                    "float64 rounding (mode R)", "the property's 'up to 40 updates' as an explicit sequence: covered through the inductive step for the deque discipline only"]
